@@ -164,6 +164,52 @@ theorem C17_unwrapping_sites_panic :
     Sites.current ≠ Sites.unwrapping := by
   refine ⟨by decide +kernel, by decide +kernel, by decide +kernel, by decide +kernel, by decide +kernel, by decide⟩
 
+/-- **REMEMBER slices on character boundaries.** `remember.rs` looks for the last " AS " in an
+ASCII-upper-cased copy and slices the original text at that byte offset (and 4 bytes later).
+ASCII upper-casing keeps the UTF-8 length of every character (first two clauses), hence for every text —
+any Unicode content — both slices exist: `remainder[..as_idx]` and `remainder[as_idx + 4..]` never
+panic, and they are the text before / after that " AS ". (That the copy is made with
+`to_ascii_uppercase` is pinned by the constants extractor: `tie_rememberUpperIsAscii`; with a Unicode
+case mapping the lengths differ — e.g. U+0390 2→6 bytes — and the statement is false.) -/
+theorem C17_remember_split_total :
+    (∀ c, utf8Len (upper c) = utf8Len c) ∧ (∀ s, byteLen (s.map upper) = byteLen s) ∧
+    (∀ (s : Str) (idx : Nat), rfind " AS ".toList (s.map upper) = some idx →
+      ∃ i, splitAtByte s idx = some (s.take i, s.drop i) ∧
+           splitAtByte s (idx + 4) = some (s.take (i + 4), s.drop (i + 4)) ∧
+           ((s.map upper).drop i).take 4 = " AS ".toList) := by
+  refine ⟨utf8Len_upper, byteLen_map_upper, ?_⟩
+  intro s idx h
+  rcases rfindFrom_spec _ _ 0 none idx h with h0 | ⟨i, hi, hr, hs⟩
+  · simp at h0
+  · obtain ⟨j, h1, h2⟩ := remember_split s idx h
+    -- `remember_split` and this `i` denote the same boundary; restate with the witness of the search
+    obtain ⟨r, hr4⟩ := startsWith_as _ hs
+    simp only [List.length_map] at hi
+    have hidx : idx = byteLen (s.take i) := by
+      rw [hr, Nat.zero_add, ← List.map_take, byteLen_map_upper]
+    have hlen : i + 4 ≤ s.length := by
+      have := congrArg List.length hr4
+      simp at this; omega
+    have hb : byteLen (s.take (i + 4)) = idx + 4 := by
+      have e : s.take (i + 4) = s.take i ++ (s.drop i).take 4 := by rw [List.take_add]
+      rw [e, byteLen_append, ← hidx]
+      have : byteLen ((s.drop i).take 4) = byteLen (((s.map upper).drop i).take 4) := by
+        rw [← List.map_drop, ← List.map_take, byteLen_map_upper]
+      rw [this, hr4]
+      have t4 : (' ' :: 'A' :: 'S' :: ' ' :: r).take 4 = [' ', 'A', 'S', ' '] := rfl
+      rw [t4]
+      have b4 : byteLen [' ', 'A', 'S', ' '] = 4 := by decide
+      rw [b4]
+    refine ⟨i, ?_, ?_, ?_⟩
+    · rw [hidx]; exact splitAtByte_take s i hi
+    · rw [← hb]; exact splitAtByte_take s (i + 4) hlen
+    · rw [hr4]; rfl
+
+/-- non-vacuity with characters whose Unicode upper-case has another UTF-8 length (U+0390, U+FB01, U+0149) -/
+def qr : Query := { eventType := "orders".toList, contextId := some [Char.ofNat 0x390, Char.ofNat 0x390, Char.ofNat 0xFB01, Char.ofNat 0x149] }
+example : parseCommand Uni.ascii ("REMEMBER QUERY orders FOR \"".toList ++ [Char.ofNat 0x390, Char.ofNat 0x390, Char.ofNat 0xFB01, Char.ofNat 0x149] ++ "\" AS hot".toList) =
+    .ok (.single (.remember "hot".toList qr)) := by decide +kernel
+
 /-- **Dispatch is total**: every command `parse_command` can return — including `Batch` — has an arm in
 `dispatch_command` (arms generated from the source; `Batch(_)` answers 400 since fbe6de4, and the
 `_ => unreachable!()` arm is gone). -/
